@@ -45,7 +45,7 @@ func (cs detCase) sample() map[string]any {
 }
 
 func init() {
-	for _, n := range []string{"objects", "multi-fault", "trees", "processes"} {
+	for _, n := range []string{"objects", "multi-fault", "trees", "processes", "misplaced-objects"} {
 		harness.RegisterReplayer("C14/"+n, func(raw json.RawMessage) string {
 			cs, err := unJSON[detCase](raw)
 			if err != nil {
@@ -255,6 +255,36 @@ func TestC14_Objects(t *testing.T) {
 	})
 }
 
+// c14Misplaced: positions in which an object literal is the wrong kind of value
+// or sits in broken syntax, so that the result is an error (which may quote it).
+var c14Misplaced = []string{
+	`@component("c", [%s])`, `@component("c", true ? 1 : %s)`, `@component("c", %s.k)`, `@component(%s)`, `@component("c", %s, %s)`, `@component("c", (%s))`, `@component("c", -%s)`,
+	`@each(x in %s)a@end`, `@each(x in [%s].nosuch())a@end`, `@for(i = %s; i < 3; i++)a@end`, `@for(i = 0; %s; i++)a@break@end`, `@if(%s.nosuch)a@end`, `@if(%s.nosuch())a@end`,
+	`@use(%s)`, `@insert(%s)`, `@insert("a", %s)`, `@reserve(%s)`, `@slot(%s)`, `@breakIf(%s)`, `@dump(%s`, `@dump(%s, zzUnknown)`,
+	`{{ %s + 1 }}`, `{{ 1 + %s }}`, `{{ %s.nosuch }}`, `{{ %s.len() }}`, `{{ %s.nosuchfn(%s) }}`, `{{ -%s }}`, `{{ %s[0] }}`, `{{ %s[%s] }}`, `{{ [1][%s] }}`, `{{ "a".len(%s) }}`, `{{ "a".repeat(%s) }}`, `{{ [1].join(%s) }}`,
+	`{{ x = 1; x = %s }}`, `{{ loop = %s }}`, `{{ %s %s }}`, `{{ %s. }}`, `{{ [%s, }}`, `{{ %s ? }}`, `{{ %s++ }}`, `{{ %s == 1 }}`, `{{ %s < %s }}`, `{{ %s.k.nosuch.deeper }}`, `{{ "s".contains(%s) }}`, `{{ [1, 2].slice(%s) }}`, `{{ 5.decimal(%s) }}`,
+}
+
+func TestC14_MisplacedObjects(t *testing.T) {
+	c := harness.New(t, "C14", "misplaced-objects",
+		fmt.Sprintf("an object literal with 2..12 keys (nested, tricky keys) written where another kind of value or nothing is expected - as a non-object or extra argument of @component, as the header of @each / @for / @if, as the name of @use / @insert / @reserve / @slot, as an operand, index, receiver or argument of a built-in of another type, re-assigned to a typed name, in unfinished syntax - %d positions; each template rendered %d times through the string API: the same result (an error, whose text may quote the object) every time. Non-trivial: all. Distinct by hash.", len(c14Misplaced), c14Reps))
+	defer c.Finish()
+	runRapid(t, c, 500, 6000, func(rt *rapid.T) {
+		cs := detCase{Kind: "misplaced-objects"}
+		form := rapid.SampledFrom(c14Misplaced).Draw(rt, "position")
+		obj := tw.ExprString(genObjExpr(rt, 1), nil)
+		cs.Src = strings.ReplaceAll(form, "%s", obj)
+		if rapid.Bool().Draw(rt, "textAround") {
+			cs.Src = "line 1\n" + cs.Src + "\nlast line"
+		}
+		c.Case(true, cs.Src, "position:"+form)
+		c.Sample(cs.sample())
+		if f := c14Run(c, cs, c14Reps); f != "" {
+			c.Fail(rt, kindOf(f), cs, "identical results", f, f)
+		}
+	})
+}
+
 func TestC14_MultiFault(t *testing.T) {
 	c := harness.New(t, "C14", "multi-fault",
 		fmt.Sprintf("string-API templates with several simultaneous faults in one order-sensitive construct: object literals with 2..6 failing entries (different failure kinds, so the messages differ), arrays of such objects, data maps with several entries of unsupported kinds (different Go types) or several reserved/mismatching entries; each rendered %d times: same error (message and line) every time. Non-trivial: all (>= 2 distinct faults). Distinct by hash.", c14Reps))
@@ -369,7 +399,7 @@ func TestC14_Probe(t *testing.T) {
 
 func TestC14_Processes(t *testing.T) {
 	c := harness.New(t, "C14", "processes",
-		"a sample of the object-printing and multi-fault cases rendered once in each of 3 fresh processes (the test binary re-executes itself; each process has its own map hash seed): the three outcomes and the in-process outcome must be identical. Non-trivial: all. Distinct by hash.")
+		"a sample of the object-printing, misplaced-object and multi-fault cases rendered once in each of 3 fresh processes (the test binary re-executes itself; each process has its own map hash seed): the three outcomes and the in-process outcome must be identical. Non-trivial: all. Distinct by hash.")
 	defer c.Finish()
 	if os.Getenv("VERIF_PROBE_CASE") != "" {
 		return
@@ -386,9 +416,11 @@ func TestC14_Processes(t *testing.T) {
 	defer os.RemoveAll(dir)
 	runRapid(t, c, 12, 180, func(rt *rapid.T) {
 		cs := detCase{Kind: "processes"}
-		if rapid.Bool().Draw(rt, "objects") {
+		if k := rapid.IntRange(0, 2).Draw(rt, "caseKind"); k == 0 {
 			cs.Src = "{{ " + tw.ExprString(genObjExpr(rt, 1), nil) + " }}@dump(obj)"
 			cs.Data = (&spec.Data{}).Add("obj", genObjData(rt, 1))
+		} else if k == 1 {
+			cs.Src = strings.ReplaceAll(rapid.SampledFrom(c14Misplaced).Draw(rt, "position"), "%s", tw.ExprString(genObjExpr(rt, 1), nil))
 		} else {
 			cs.Src = "{{ {alpha: zz1, beta: 1 / 0, gamma: 1 + 'a', delta: zz2, eps: 5 % 0} }}"
 		}
